@@ -320,8 +320,9 @@ class CHECK(core.Check):
                "C22_streak_fifo_once: for a streak log whose field list names the queue field and histories that only "
                "append to it (no write/poke of that field); default-field streaks, non-list values (logged on every run) "
                "and MutableMapping queues are covered by the correspondence only / not modelled",
-               "theorems are about a logger with ONE log (S1); loggers with several logs are tied to the code by the "
-               "correspondence only (C22_single_log_refines links the two models); a change log that watches a list "
+               "the rule theorems are about a logger with ONE log (S1); C22_logs_independent carries them to loggers "
+               "with any number of logs whose rules do not drain a queue (never/once/always/update/change); loggers "
+               "that mix in streak/deck logs are tied to the code by the correspondence only; a change log that watches a list "
                "which a streak log of the same logger drains between prepare and the first record writes a duplicate "
                "first record (not generated, not covered)",
                "not modelled: field deletion from a share, binary logs, IOError on open, tuple values, rotation (C23)"]
